@@ -238,23 +238,37 @@ func checkC08(c *caseC08) (viol string, nontrivial bool, feats []string) {
 				}
 			}
 			// run: directly and after dump/load
-			for _, via := range []string{"direct", "dump+load"} {
+			for _, via := range []string{"direct", "dump+load", "disasm+trace", "twice"} {
 				var out, log bytes.Buffer
 				p, lerr, pan := loadProg(bytes.NewReader(e.dump), "n", optOut(&out), optLog(&log))
 				if pan != nil || lerr != nil {
 					return fmt.Sprintf("%s: LoadProg failed: %v %v", e.name, pan, lerr), false, feats
 				}
-				if via == "direct" {
+				var xopts []bcl.Option
+				switch via {
+				case "direct":
 					// the program object parsed in this process (whole only; the
 					// chunked one is exercised through its dump)
 					if e.name != "Parse(whole)" {
 						continue
 					}
-					var p2 *bcl.Prog
-					p2, _ = bcl.Parse([]byte(c.Src), "n", optOut(&out), optLog(&log))
-					p = p2
+					p, _ = bcl.Parse([]byte(c.Src), "n", optOut(&out), optLog(&log))
+				case "disasm+trace":
+					// listing and trace look positions up too, through the same
+					// line table the error positions come from
+					if e.name != "Parse(whole)" {
+						continue
+					}
+					p, _ = bcl.Parse([]byte(c.Src), "n", optOut(&out), optLog(&log), bcl.OptDisasm(true))
+					out.Reset()
+					xopts = []bcl.Option{bcl.OptTrace(true)}
+				case "twice":
+					// a second run of the same program object
+					executeWith(p, &out, &log)
+					out.Reset()
+					log.Reset()
 				}
-				a := executeWith(p, &out, &log)
+				a := executeWith(p, &out, &log, xopts...)
 				if a.Panic != nil {
 					return fmt.Sprintf("Execute panicked: %v", a.Panic), false, feats
 				}
